@@ -11,5 +11,6 @@ def main (args : List String) : IO UInt32 := do
   | ["ng"] => Proto.loop stdin stdout DriverNg.step (); return 0
   | ["lca"] => Proto.loop stdin stdout DriverLca.step DriverLca.init; return 0
   | ["cmp"] => Proto.loop stdin stdout DriverCmp.step DriverCmp.init; return 0
+  | ["store"] => Proto.loop stdin stdout DriverStore.step DriverStore.init; return 0
   | ["own"] => Proto.loop stdin stdout DriverOwn.stepLine Own.Heap.empty; return 0
   | _ => IO.eprintln "usage: Main <module>"; return 2
